@@ -1,4 +1,4 @@
-import MpdProofs.Lemmas.CancelSafe
+import MpdProofs.Lemmas.ObsMono
 /-!
 # Every run of the task decodes the delivered byte stream, in order, exactly once
 
@@ -49,7 +49,10 @@ def Good (s : St) (D : Bytes) : Prop :=
     Attr cs (responses s.obs) (eventsOf s.obs) ∧
     -- write discipline: the reply-producing lines written so far are, in order, exactly the
     -- consumers of the responses consumed so far, followed by the one reply the task waits for
-    (Terminal s ∨ replyWrites s.obs = cs.map (·.1) ++ outstanding s.pc)
+    (Terminal s ∨ replyWrites s.obs = cs.map (·.1) ++ outstanding s.pc) ∧
+    -- ... and in any case (also after the loop has returned) the consumers are a prefix of the
+    -- reply-producing lines written
+    (∃ rest, replyWrites s.obs = cs.map (·.1) ++ rest)
 
 /-- the poll of the receive future at `s` ends with end of stream, an I/O error or an invalid message -/
 def Broken (s : St) : Prop :=
@@ -63,7 +66,9 @@ theorem not_terminal_of_step {s s' : St} {rf : Bool} (h : step s rf = some s') :
 
 theorem good_step (s s' : St) (rf : Bool) (D : Bytes) (hc : s.pc ≠ .connecting) (hg : Good s D)
     (h : step s rf = some s') : Good s' D ∨ Broken s := by
-  obtain ⟨cs, hd, ha, hwd⟩ := hg
+  obtain ⟨cs, hd, ha, hwd, hpre⟩ := hg
+  obtain ⟨ext, hext⟩ := step_ext s s' rf hc h
+  have hrw : replyWrites s'.obs = replyWrites s.obs ++ replyWrites ext := by rw [hext]; simp
   have hwd' : replyWrites s.obs = cs.map (·.1) ++ outstanding s.pc := by
     rcases hwd with ht | hw
     · exact absurd ht (not_terminal_of_step h)
@@ -71,12 +76,14 @@ theorem good_step (s s' : St) (rf : Bool) (D : Bytes) (hc : s.pc ≠ .connecting
   cases step_effect s s' rf hc h with
   | silent hf hq hw =>
     left
-    refine ⟨cs, fun q => ?_, ?_, ?_⟩
+    refine ⟨cs, fun q => ?_, ?_, ?_, ?_⟩
     · rw [hf q]; exact hd q
     · rw [hq.1, hq.2]; exact ha
     · rcases hw with ht | ⟨Δ, h1, h2⟩
       · exact Or.inl ht
       · right; rw [h1, hwd', h2, List.append_assoc]
+    · obtain ⟨rest, hrest⟩ := hpre
+      exact ⟨rest ++ replyWrites ext, by rw [hrw, hrest, List.append_assoc]⟩
   | broken it hit hp _ => right; exact ⟨it, hit, hp⟩
   | consumed r hf hσ hdel hw =>
     left
@@ -114,16 +121,17 @@ theorem good_step (s s' : St) (rf : Bool) (D : Bytes) (hc : s.pc ≠ .connecting
       unfold future
       rw [hσ]
     obtain ⟨⟨c, hc'⟩, hw⟩ := hw
-    refine ⟨cs ++ [(c, r)], dec c, key c hc', ?_⟩
-    rcases hw with ht | hw
-    · exact Or.inl ht
-    · right
-      rw [hw, hwd', hc', List.map_append]; simp
+    refine ⟨cs ++ [(c, r)], dec c, key c hc', ?_, ?_⟩
+    · rcases hw with ht | hw
+      · exact Or.inl ht
+      · right
+        rw [hw, hwd', hc', List.map_append]; simp
+    · exact ⟨replyWrites ext, by rw [hrw, hwd', hc', List.map_append]; simp⟩
 
 /-- bytes arrive -/
 theorem good_deliver (s : St) (D b : Bytes) (hg : Good s D) : Good { s with avail := s.avail ++ b } (D ++ b) := by
-  obtain ⟨rs, hd, ha, hw⟩ := hg
-  refine ⟨rs, fun q => ?_, ha, hw⟩
+  obtain ⟨rs, hd, ha, hw, hp⟩ := hg
+  refine ⟨rs, fun q => ?_, ha, hw, hp⟩
   have := hd (b ++ q)
   simpa [future, resid, σcur, List.append_assoc] using this
 
@@ -132,9 +140,9 @@ def EnvSame (s s' : St) : Prop :=
   s'.pc = s.pc ∧ s'.bstash = s.bstash ∧ s'.buf = s.buf ∧ s'.avail = s.avail ∧ s'.obs = s.obs
 
 theorem good_env (s s' : St) (D : Bytes) (he : EnvSame s s') (hg : Good s D) : Good s' D := by
-  obtain ⟨rs, hd, ha, hw⟩ := hg
+  obtain ⟨rs, hd, ha, hw, hp⟩ := hg
   obtain ⟨e1, e2, e3, e4, e5⟩ := he
-  refine ⟨rs, fun q => ?_, by rw [e5]; exact ha, by unfold Terminal at *; rw [e5, e1]; exact hw⟩
+  refine ⟨rs, fun q => ?_, by rw [e5]; exact ha, by unfold Terminal at *; rw [e5, e1]; exact hw, by rw [e5]; exact hp⟩
   have : future s' q = future s q := by simp [future, resid, σcur, e1, e2, e3, e4]
   rw [this]; exact hd q
 
@@ -222,7 +230,7 @@ def AfterGreeting (s0 : St) : Prop :=
 
 theorem good_start (s0 : St) (h : AfterGreeting s0) : Good s0 [] := by
   obtain ⟨_, h2, h3, h4, h5⟩ := h
-  refine ⟨[], fun q => ?_, by rw [h3, h4]; exact .nil, Or.inr (by simp [h5])⟩
+  refine ⟨[], fun q => ?_, by rw [h3, h4]; exact .nil, Or.inr (by simp [h5]), ⟨replyWrites s0.obs, by simp⟩⟩
   simp [Decodes, future, h2]
 
 /-- **every run decodes the delivered stream in order, exactly once, and attributes every response** -/
@@ -252,7 +260,7 @@ theorem one_outstanding (s0 s : St) (D : Bytes) (h0 : AfterGreeting s0) (hr : Ru
     Terminal s ∨ ∃ cs : List (Consumer × Response),
       (∀ q, Decodes .initial (D ++ q) (cs.map (·.2)) (future s q)) ∧
       replyWrites s.obs = cs.map (·.1) ++ outstanding s.pc ∧ (outstanding s.pc).length ≤ 1 := by
-  obtain ⟨cs, hd, _, hw⟩ := (run_decodes s0 s D h0 hr).2
+  obtain ⟨cs, hd, _, hw, _⟩ := (run_decodes s0 s D h0 hr).2
   rcases hw with ht | hw
   · exact Or.inl ht
   · exact Or.inr ⟨cs, hd, hw, by cases s.pc <;> simp [outstanding]⟩
